@@ -40,24 +40,50 @@ var c04GrpWant = []string{"JRWPSD", "JRWPSD", "JRWPSD", "JRWPS", "JWPS", "JWPSD"
 var c04OwnerWant = []string{"JRWPASDO", "JRWPASDO", "JWPASDO", "JRWPASO", "JWPASO"}
 var c04P2PModes = []string{"JRWPAD", "JRWPAD", "JRWPAD", "JRWPA", "JWPA", "JWPAD"}
 
+// rapid's integer generators favour small values heavily (IntRange(0,99) is below 10 in 40% of
+// the draws), which would turn a "4%" branch into a 30% one: percentages, choices and ids are
+// drawn from ten fair bits instead. All bits false (what shrinking aims at) = the first choice /
+// the branch not taken.
+func c04Bits(rt *rapid.T, label string) int {
+	v := 0
+	for _, b := range rapid.SliceOfN(rapid.Bool(), 10, 10).Draw(rt, label) {
+		v <<= 1
+		if b {
+			v |= 1
+		}
+	}
+	return v
+}
+
+func c04Pct(rt *rapid.T, p int) bool { return (1023-c04Bits(rt, "pct"))*100/1024 < p }
+
+func c04Int(rt *rapid.T, lo, hi int, label string) int {
+	if hi <= lo {
+		return lo
+	}
+	return lo + c04Bits(rt, label)*(hi-lo+1)/1024
+}
+
+func c04Pick[T any](rt *rapid.T, pool []T, label string) T { return pool[c04Int(rt, 0, len(pool)-1, label)] }
+
 // c04Ranges draws a list of delete ranges for a topic whose last message id is about `last`.
 func c04Ranges(rt *rapid.T, last int) [][2]int {
 	if last < 1 {
 		last = 1
 	}
-	n := gPick(rt, []int{1, 1, 2, 2, 2, 3, 3, 4, 5, 6}, "nranges")
+	n := c04Pick(rt, []int{1, 1, 2, 2, 2, 3, 3, 4, 5, 6}, "nranges")
 	var out [][2]int
 	for i := 0; i < n; i++ {
 		var r [2]int
-		if i > 0 && gPct(rt, 55) {
+		if i > 0 && c04Pct(rt, 55) {
 			// related to an earlier entry: duplicate, touching, overlapping, nested, one apart
-			p := out[rapid.IntRange(0, i-1).Draw(rt, "prev")]
+			p := out[c04Int(rt, 0, i-1, "prev")]
 			pl, ph := p[0], p[1]
 			if ph <= pl {
 				ph = pl + 1
 			}
-			k := rapid.IntRange(0, 3).Draw(rt, "len")
-			switch gPick(rt, []string{"dup", "touch", "touch", "touchlow", "overlap", "nested", "gap1", "touch1"}, "rel") {
+			k := c04Int(rt, 0, 3, "len")
+			switch c04Pick(rt, []string{"dup", "touch", "touch", "touchlow", "overlap", "nested", "gap1", "touch1"}, "rel") {
 			case "dup":
 				r = p
 			case "touch":
@@ -74,8 +100,8 @@ func c04Ranges(rt *rapid.T, last int) [][2]int {
 				r = [2]int{ph + 1, ph + 1 + k}
 			}
 		} else {
-			low := rapid.IntRange(1, last).Draw(rt, "low")
-			switch gPick(rt, []string{"single0", "single0", "hi=low", "hi=low+1", "span", "span", "span", "tolast", "beyond", "beyond", "far"}, "shape") {
+			low := c04Int(rt, 1, last, "low")
+			switch c04Pick(rt, []string{"single0", "single0", "hi=low", "hi=low+1", "span", "span", "span", "tolast", "beyond", "beyond", "far"}, "shape") {
 			case "single0":
 				r = [2]int{low, 0}
 			case "hi=low":
@@ -83,17 +109,17 @@ func c04Ranges(rt *rapid.T, last int) [][2]int {
 			case "hi=low+1":
 				r = [2]int{low, low + 1}
 			case "span":
-				r = [2]int{low, low + rapid.IntRange(2, 5).Draw(rt, "len")}
+				r = [2]int{low, low + c04Int(rt, 2, 5, "len")}
 			case "tolast":
 				r = [2]int{low, last}
 			case "beyond":
-				r = [2]int{low, last + rapid.IntRange(1, 3).Draw(rt, "over")}
+				r = [2]int{low, last + c04Int(rt, 1, 3, "over")}
 			case "far":
 				r = [2]int{low, 100000}
 			}
 		}
 		// keep most entries inside the domain 1 <= low <= last, hi = 0 or hi >= low
-		if !gPct(rt, 4) {
+		if !c04Pct(rt, 4) {
 			if r[0] < 1 {
 				r[0] = 1
 			}
@@ -104,15 +130,15 @@ func c04Ranges(rt *rapid.T, last int) [][2]int {
 				r[1] = 0
 			}
 		} else {
-			switch gPick(rt, []string{"low0", "low0", "lowneg", "lowbeyond", "inverted", "hineg", "zero"}, "bad") {
+			switch c04Pick(rt, []string{"low0", "low0", "lowneg", "lowbeyond", "inverted", "hineg", "zero"}, "bad") {
 			case "low0":
-				r = [2]int{0, rapid.IntRange(1, last+1).Draw(rt, "hi")}
+				r = [2]int{0, c04Int(rt, 1, last+1, "hi")}
 			case "lowneg":
 				r = [2]int{-1, 2}
 			case "lowbeyond":
-				r = [2]int{last + rapid.IntRange(1, 3).Draw(rt, "over"), 0}
+				r = [2]int{last + c04Int(rt, 1, 3, "over"), 0}
 			case "inverted":
-				r = [2]int{rapid.IntRange(2, last+1).Draw(rt, "low"), 1}
+				r = [2]int{c04Int(rt, 2, last+1, "low"), 1}
 			case "hineg":
 				r = [2]int{1, -1}
 			case "zero":
@@ -127,12 +153,12 @@ func c04Ranges(rt *rapid.T, last int) [][2]int {
 func c04Gen(rt *rapid.T) wProg {
 	p := wProg{}
 	p.Cfg = wConfig{Users: 4, NoPush: true}
-	p.Sess = append([]int(nil), gPick(rt, c04Layouts, "layout")...)
-	isChan := gPct(rt, 35)
+	p.Sess = append([]int(nil), c04Pick(rt, c04Layouts, "layout")...)
+	isChan := c04Pct(rt, 35)
 	reader := map[int]bool{}
 	if isChan {
-		reader[2] = gPct(rt, 65)
-		reader[3] = gPct(rt, 65)
+		reader[2] = c04Pct(rt, 65)
+		reader[3] = c04Pct(rt, 65)
 	}
 	kind := "new"
 	if isChan {
@@ -157,41 +183,41 @@ func c04Gen(rt *rapid.T) wProg {
 	for s := 1; s < len(p.Sess); s++ {
 		u := p.Sess[s]
 		if u == 0 {
-			if gPct(rt, 88) {
+			if c04Pct(rt, 88) {
 				p.Ops = append(p.Ops, wOp{K: "sub", S: s, T: "g0"})
 			}
 			continue
 		}
-		if s != firstOf(u) && !gPct(rt, 85) {
+		if s != firstOf(u) && !c04Pct(rt, 85) {
 			continue
 		}
 		want := ""
 		if !reader[u] {
-			want = gPick(rt, []string{"", "", "JRWPSD", "JRWPS"}, "want")
+			want = c04Pick(rt, []string{"", "", "JRWPSD", "JRWPS"}, "want")
 			if isChan && !invited[u] {
 				// a channel lets nobody but readers in by default: the owner invites full members
 				invited[u] = true
-				p.Ops = append(p.Ops, wOp{K: "set", S: 0, T: "g0", A: "given", U: u, B: gPick(rt, []string{"JRWPS", "JRWPSD"}, "invite")})
+				p.Ops = append(p.Ops, wOp{K: "set", S: 0, T: "g0", A: "given", U: u, B: c04Pick(rt, []string{"JRWPS", "JRWPSD"}, "invite")})
 			}
 		}
 		p.Ops = append(p.Ops, wOp{K: "sub", S: s, T: grpRef(s), A: want})
 	}
-	if gPct(rt, 55) {
+	if c04Pct(rt, 55) {
 		// a member who may hard-delete
-		u := gPick(rt, []int{1, 1, 2}, "deleter")
+		u := c04Pick(rt, []int{1, 1, 2}, "deleter")
 		if !reader[u] && firstOf(u) >= 0 {
 			p.Ops = append(p.Ops, wOp{K: "set", S: 0, T: "g0", A: "given", U: u, B: "JRWPSD"}, wOp{K: "set", S: firstOf(u), T: "g0", A: "mode", B: "JRWPSD"})
 		}
 	}
-	hasP2P := gPct(rt, 70)
+	hasP2P := c04Pct(rt, 70)
 	if hasP2P {
-		p.Ops = append(p.Ops, wOp{K: "sub", S: 0, T: "p1", A: gPick(rt, []string{"", "JRWPAD"}, "want")})
+		p.Ops = append(p.Ops, wOp{K: "sub", S: 0, T: "p1", A: c04Pick(rt, []string{"", "JRWPAD"}, "want")})
 		for s := 1; s < len(p.Sess); s++ {
-			if p.Sess[s] == 1 && gPct(rt, 85) {
-				p.Ops = append(p.Ops, wOp{K: "sub", S: s, T: "p0", A: gPick(rt, []string{"", "JRWPAD"}, "want")})
+			if p.Sess[s] == 1 && c04Pct(rt, 85) {
+				p.Ops = append(p.Ops, wOp{K: "sub", S: s, T: "p0", A: c04Pick(rt, []string{"", "JRWPAD"}, "want")})
 			}
 		}
-		if p.Sess[1] == 0 && gPct(rt, 70) {
+		if p.Sess[1] == 0 && c04Pct(rt, 70) {
 			p.Ops = append(p.Ops, wOp{K: "sub", S: 1, T: "p1"})
 		}
 	}
@@ -205,7 +231,7 @@ func c04Gen(rt *rapid.T) wProg {
 	}
 	topicFor := func(s int) string {
 		u := p.Sess[s]
-		if hasP2P && u <= 1 && gPct(rt, 35) {
+		if hasP2P && u <= 1 && c04Pct(rt, 35) {
 			if u == 0 {
 				return "p1"
 			}
@@ -221,22 +247,22 @@ func c04Gen(rt *rapid.T) wProg {
 				pool = append(pool, s)
 			}
 		}
-		return gPick(rt, pool, "wsess")
+		return c04Pick(rt, pool, "wsess")
 	}
 	pub := func(s int, ref string) {
-		p.Ops = append(p.Ops, wOp{K: "pub", S: s, T: ref, F: gPct(rt, 25)})
+		p.Ops = append(p.Ops, wOp{K: "pub", S: s, T: ref, F: c04Pct(rt, 25)})
 		cnt[topicKey(ref)]++
 	}
-	ng := rapid.IntRange(3, 9).Draw(rt, "npub")
-	if gPct(rt, 3) {
+	ng := c04Int(rt, 3, 9, "npub")
+	if c04Pct(rt, 3) {
 		// more messages than the configured maximum of one history query
-		ng = c04MaxMsgs + rapid.IntRange(1, 4).Draw(rt, "bulk")
+		ng = c04MaxMsgs + c04Int(rt, 1, 4, "bulk")
 	}
 	for i := 0; i < ng; i++ {
 		pub(writerSess(), "g0")
 	}
 	if hasP2P {
-		for i, n := 0, rapid.IntRange(2, 6).Draw(rt, "npubp"); i < n; i++ {
+		for i, n := 0, c04Int(rt, 2, 6, "npubp"); i < n; i++ {
 			s := writerSess()
 			if p.Sess[s] == 0 {
 				pub(s, "p1")
@@ -248,17 +274,17 @@ func c04Gen(rt *rapid.T) wProg {
 	getData := func(s int, ref string) wOp {
 		last := cnt[topicKey(ref)]
 		op := wOp{K: "get", S: s, T: ref, A: "data"}
-		op.N = gPick(rt, []int{0, 0, 0, 0, -1, 1, 2, 3, last - 2, last - 1, last, last + 1, last + 5}, "since")
-		op.M = gPick(rt, []int{0, 0, 0, 0, -2, 1, 2, 3, 4, last - 1, last, last + 1, last + 2, 1000}, "before")
-		op.L = gPick(rt, []int{0, 0, 0, 0, -1, 1, 2, 3, 5, 99, 100, 101, 1000}, "limit")
+		op.N = c04Pick(rt, []int{0, 0, 0, 0, -1, 1, 2, 3, last - 2, last - 1, last, last + 1, last + 5}, "since")
+		op.M = c04Pick(rt, []int{0, 0, 0, 0, -2, 1, 2, 3, 4, last - 1, last, last + 1, last + 2, 1000}, "before")
+		op.L = c04Pick(rt, []int{0, 0, 0, 0, -1, 1, 2, 3, 5, 99, 100, 101, 1000}, "limit")
 		return op
 	}
 	attachAll := func(pct int) {
 		for s := range p.Sess {
-			if gPct(rt, pct) {
+			if c04Pct(rt, pct) {
 				p.Ops = append(p.Ops, wOp{K: "sub", S: s, T: grpRef(s)})
 			}
-			if hasP2P && p.Sess[s] <= 1 && gPct(rt, pct) {
+			if hasP2P && p.Sess[s] <= 1 && c04Pct(rt, pct) {
 				ref := "p1"
 				if p.Sess[s] == 1 {
 					ref = "p0"
@@ -267,23 +293,23 @@ func c04Gen(rt *rapid.T) wProg {
 			}
 		}
 	}
-	n := rapid.IntRange(6, 24).Draw(rt, "nops")
+	n := c04Int(rt, 6, 24, "nops")
 	for i := 0; i < n; i++ {
-		s := rapid.IntRange(0, len(p.Sess)-1).Draw(rt, "s")
+		s := c04Int(rt, 0, len(p.Sess)-1, "s")
 		ref := topicFor(s)
-		switch x := rapid.IntRange(0, 99).Draw(rt, "opk"); {
+		switch x := c04Int(rt, 0, 99, "opk"); {
 		case x < 30:
-			if reader[p.Sess[s]] && gPct(rt, 80) {
+			if reader[p.Sess[s]] && c04Pct(rt, 80) {
 				s = writerSess()
 				ref = topicFor(s)
 			}
-			p.Ops = append(p.Ops, wOp{K: "del", S: s, T: ref, A: "msg", F: gPct(rt, 50), R: c04Ranges(rt, cnt[topicKey(ref)])})
-			if gPct(rt, 65) {
+			p.Ops = append(p.Ops, wOp{K: "del", S: s, T: ref, A: "msg", F: c04Pct(rt, 50), R: c04Ranges(rt, cnt[topicKey(ref)])})
+			if c04Pct(rt, 65) {
 				p.Ops = append(p.Ops, getData(s, ref))
 			}
-			if gPct(rt, 55) {
+			if c04Pct(rt, 55) {
 				// somebody else looks at the same topic
-				o := rapid.IntRange(0, len(p.Sess)-1).Draw(rt, "other")
+				o := c04Int(rt, 0, len(p.Sess)-1, "other")
 				oref := grpRef(o)
 				if topicKey(ref) == "p" {
 					if p.Sess[o] > 1 {
@@ -300,16 +326,16 @@ func c04Gen(rt *rapid.T) wProg {
 			}
 		case x < 52:
 			op := getData(s, ref)
-			if op.T == "c0" && gPct(rt, 5) {
+			if op.T == "c0" && c04Pct(rt, 5) {
 				op.T = "g0" // a channel reader spelling the topic as grpXXX
 			}
 			p.Ops = append(p.Ops, op)
 		case x < 61:
 			op := wOp{K: "get", S: s, T: ref, A: "del"}
-			if gPct(rt, 30) {
-				op.N = gPick(rt, []int{0, 0, 1, 2, 3, 50}, "dsince")
-				op.M = gPick(rt, []int{0, 0, 2, 3, 4, 50}, "dbefore")
-				op.L = gPick(rt, []int{0, 0, 1, 2, 50}, "dlimit")
+			if c04Pct(rt, 30) {
+				op.N = c04Pick(rt, []int{0, 0, 1, 2, 3, 50}, "dsince")
+				op.M = c04Pick(rt, []int{0, 0, 2, 3, 4, 50}, "dbefore")
+				op.L = c04Pick(rt, []int{0, 0, 1, 2, 50}, "dlimit")
 			}
 			p.Ops = append(p.Ops, op)
 		case x < 64:
@@ -320,48 +346,48 @@ func c04Gen(rt *rapid.T) wProg {
 		case x < 74:
 			pub(s, ref)
 		case x < 80:
-			if hasP2P && gPct(rt, 30) {
-				if gPct(rt, 50) {
-					p.Ops = append(p.Ops, wOp{K: "set", S: 0, T: "p1", A: "given", U: 1, B: gPick(rt, c04P2PModes, "given")})
+			if hasP2P && c04Pct(rt, 30) {
+				if c04Pct(rt, 50) {
+					p.Ops = append(p.Ops, wOp{K: "set", S: 0, T: "p1", A: "given", U: 1, B: c04Pick(rt, c04P2PModes, "given")})
 				} else if firstOf(1) >= 0 {
-					p.Ops = append(p.Ops, wOp{K: "set", S: firstOf(1), T: "p0", A: "given", U: 0, B: gPick(rt, c04P2PModes, "given")})
+					p.Ops = append(p.Ops, wOp{K: "set", S: firstOf(1), T: "p0", A: "given", U: 0, B: c04Pick(rt, c04P2PModes, "given")})
 				}
 			} else {
-				p.Ops = append(p.Ops, wOp{K: "set", S: 0, T: "g0", A: "given", U: rapid.IntRange(1, 3).Draw(rt, "target"), B: gPick(rt, c04GrpGiven, "given")})
+				p.Ops = append(p.Ops, wOp{K: "set", S: 0, T: "g0", A: "given", U: c04Int(rt, 1, 3, "target"), B: c04Pick(rt, c04GrpGiven, "given")})
 			}
 		case x < 86:
 			switch {
 			case ref == "p0" || ref == "p1":
-				p.Ops = append(p.Ops, wOp{K: "set", S: s, T: ref, A: "mode", B: gPick(rt, c04P2PModes, "want")})
+				p.Ops = append(p.Ops, wOp{K: "set", S: s, T: ref, A: "mode", B: c04Pick(rt, c04P2PModes, "want")})
 			case p.Sess[s] == 0:
-				p.Ops = append(p.Ops, wOp{K: "set", S: s, T: ref, A: "mode", B: gPick(rt, c04OwnerWant, "want")})
+				p.Ops = append(p.Ops, wOp{K: "set", S: s, T: ref, A: "mode", B: c04Pick(rt, c04OwnerWant, "want")})
 			case !reader[p.Sess[s]]:
-				p.Ops = append(p.Ops, wOp{K: "set", S: s, T: ref, A: "mode", B: gPick(rt, c04GrpWant, "want")})
+				p.Ops = append(p.Ops, wOp{K: "set", S: s, T: ref, A: "mode", B: c04Pick(rt, c04GrpWant, "want")})
 			}
 		case x < 91:
-			unsub := gPct(rt, 60)
+			unsub := c04Pct(rt, 60)
 			if unsub && ref == "p1" {
 				unsub = false // user 0 keeps the P2P topic alive
 			}
 			p.Ops = append(p.Ops, wOp{K: "leave", S: s, T: ref, F: unsub})
-			if gPct(rt, 75) {
+			if c04Pct(rt, 75) {
 				p.Ops = append(p.Ops, wOp{K: "sub", S: s, T: ref})
 			}
 		case x < 93:
 			p.Ops = append(p.Ops, wOp{K: "sub", S: s, T: ref})
 		case x < 96:
-			p.Ops = append(p.Ops, wOp{K: "reload", T: gPick(rt, []string{"g0", "g0", "p1"}, "rt")})
+			p.Ops = append(p.Ops, wOp{K: "reload", T: c04Pick(rt, []string{"g0", "g0", "p1"}, "rt")})
 		case x < 98:
 			p.Ops = append(p.Ops, wOp{K: "restart"})
 			attachAll(90)
 		case x < 99:
-			u := rapid.IntRange(1, 3).Draw(rt, "evict")
+			u := c04Int(rt, 1, 3, "evict")
 			p.Ops = append(p.Ops, wOp{K: "del", S: 0, T: "g0", A: "sub", U: u})
-			if t := firstOf(u); t >= 0 && gPct(rt, 75) {
+			if t := firstOf(u); t >= 0 && c04Pct(rt, 75) {
 				p.Ops = append(p.Ops, wOp{K: "sub", S: t, T: grpRef(t)})
 			}
 		default:
-			p.Ops = append(p.Ops, wOp{K: "tick", N: gPick(rt, []int{50, 1000, 5500}, "ms")})
+			p.Ops = append(p.Ops, wOp{K: "tick", N: c04Pick(rt, []int{50, 1000, 5500}, "ms")})
 		}
 	}
 	return p
@@ -393,6 +419,9 @@ type c04Topic struct {
 	delID   int
 	log     []c04Tx
 	tainted string // non-empty: the model lost track (reason); the topic is no longer judged
+	// P2P only: users who unsubscribed, and those of them the peer has invited back since
+	// (known finding p2p-reinvited: the loaded topic then forgets how that user names it)
+	left, reinvited map[int]bool
 }
 
 func (tp *c04Topic) softOf(u int) map[int]bool {
@@ -405,6 +434,10 @@ func (tp *c04Topic) softOf(u int) map[int]bool {
 // endIncarnation: the user's subscription ended; soft deletions and their log entries are gone.
 func (tp *c04Topic) endIncarnation(u int) {
 	delete(tp.soft, u)
+	if tp.left == nil {
+		tp.left, tp.reinvited = map[int]bool{}, map[int]bool{}
+	}
+	tp.left[u] = true
 	var keep []c04Tx
 	for _, tx := range tp.log {
 		if tx.forUser != u {
@@ -597,6 +630,9 @@ func (o *c04Obs) After(w *wWorld, st *wStep) *kit.Viol {
 		o.classes["reload"] = true
 	case "restart":
 		o.classes["restart"] = true
+		for _, tp := range o.topics {
+			tp.reinvited = map[int]bool{}
+		}
 	}
 	if !st.Skipped && st.User >= 0 && st.Op.Obo == 0 {
 		switch st.Op.K {
@@ -608,6 +644,15 @@ func (o *c04Obs) After(w *wWorld, st *wStep) *kit.Viol {
 					tp.endIncarnation(st.User)
 					o.classes["unsub"] = true
 				}
+			}
+		case "set":
+			if tp := o.topics[st.Route]; tp != nil && st.Op.A == "given" && st.ok() && strings.HasPrefix(st.Route, "p2p") && tp.left[st.Op.U] && st.Op.U != st.User {
+				tp.reinvited[st.Op.U] = true
+				o.classes["p2p-peer-invited-back"] = true
+			}
+		case "sub":
+			if tp := o.topics[st.Route]; tp != nil && st.ok() {
+				delete(tp.left, st.User)
 			}
 		case "del":
 			switch st.Op.A {
@@ -800,6 +845,9 @@ func (o *c04Obs) judgeGetData(w *wWorld, st *wStep) *kit.Viol {
 		pfx = "chan-reader-addressing:"
 	}
 	u := at.User
+	if tp.reinvited[u] {
+		pfx = "p2p-reinvited:"
+	}
 	if !mode.IsReader() {
 		if len(frames) > 0 {
 			return o.rep(kit.V(pfx+"history-without-R", "user %d with mode %v (no R) sent %s and received %d {data} frames", u, mode, st.Req, len(frames)))
@@ -951,6 +999,9 @@ func (o *c04Obs) judgeGetDel(w *wWorld, st *wStep) *kit.Viol {
 		pfx = "chan-reader-addressing:"
 	}
 	u := at.User
+	if tp.reinvited[u] {
+		pfx = "p2p-reinvited:"
+	}
 	since, before, limit := st.Op.N, st.Op.M, st.Op.L
 	expect := map[int]bool{}
 	rows := 0
